@@ -48,7 +48,7 @@ def check(ctx):
         ctx.replays += o["n"]
         ctx.note("scenarios_by_mode", o["by_mode"])
         for mm in o["mismatches"]:
-            if any("harness" in b for b in mm["bad"]):
+            if any(b.startswith("harness") for b in mm["bad"]):
                 raise MachineryError(f"[{v}] {mm['mode']} {mm['scen']}: {mm['bad']}")
             ctx.violation(f"[{v}] {mm['mode']} {json.dumps(mm['scen'])[:300]}: " + "; ".join(mm["bad"][:3]), mm)
     for m in ("tower", "customize", "idict"):
